@@ -633,6 +633,14 @@ def eq_terms(run, a, b):
             k = z3.FreshConst(ty.k.sort(), "k")
             return z3.ForAll([k], z3.And(z3.Select(ty.has(a.t), k) == z3.Select(ty.has(b.t), k),
                                          z3.Implies(z3.Select(ty.has(a.t), k), z3.Select(ty.val(a.t), k) == z3.Select(ty.val(b.t), k))))
+        if a.ty is TAny:
+            # Python's == on dynamically typed values: SafeString("x") == "x", True == 1; other objects by identity
+            P = TAny.sort()
+            strlike = lambda t: z3.Or(P.is_StrV(t), P.is_SafeV(t))
+            text = lambda t: z3.If(P.is_StrV(t), P.s(t), P.ss(t))
+            num = lambda t: z3.Or(P.is_IntV(t), P.is_BoolV(t))
+            numv = lambda t: z3.If(P.is_IntV(t), P.i(t), z3.If(P.b(t), 1, 0))
+            return z3.Or(a.t == b.t, z3.And(strlike(a.t), strlike(b.t), text(a.t) == text(b.t)), z3.And(num(a.t), num(b.t), numv(a.t) == numv(b.t)))
         return a.t == b.t
     # Optional vs. plain
     if isinstance(a.ty, TOpt) and not isinstance(b.ty, TOpt):
